@@ -278,13 +278,31 @@ def _literal_iteration(it, fnode=None):
                   and n.attr in ("append", "extend", "insert", "pop", "remove", "sort", "reverse", "clear") for n in ast.walk(fnode))
         if len(defs) == 1 and isinstance(defs[0], ast.Assign) and isinstance(defs[0].value, (ast.Tuple, ast.List)) and not mut:
             return _literal_iteration(defs[0].value)
+        if not defs and not mut and it.id not in {a.arg for a in getattr(getattr(fnode, "args", None), "args", [])}:
+            # a closure variable: a literal table of the enclosing function
+            for outer in getattr(fnode, "_closure_parents", []):
+                r = _literal_iteration(it, outer)
+                if r is not None:
+                    return r
         return None
     if isinstance(it, (ast.Tuple, ast.List)) and 1 <= len(it.elts) <= UNROLL_MAX and all(_simple_elem(e) for e in it.elts):
         return [e for e in it.elts]
     if isinstance(it, ast.Call) and isinstance(it.func, ast.Name) and it.func.id == "enumerate" and len(it.args) == 1 and not it.keywords:
-        inner = _literal_iteration(it.args[0])
+        inner = _literal_iteration(it.args[0], fnode)
         if inner is not None:
             return [ast.Tuple(elts=[ast.Constant(value=i), e], ctx=ast.Load()) for i, e in enumerate(inner)]
+    if isinstance(it, ast.Call) and isinstance(it.func, ast.Name) and it.func.id == "zip" and len(it.args) >= 2 and not it.keywords:
+        # zip(<literal of n>, xs): n rounds over (literal[i], xs[i]) - xs is a sequence at least that long wherever the
+        # loop completes in the original (a shorter xs stops the original early; rules that depend on the count check it)
+        lits = [_literal_iteration(a, fnode) if isinstance(a, (ast.Tuple, ast.List, ast.Name)) else None for a in it.args]
+        known = [l for l in lits if l is not None]
+        if known and all(l is not None or isinstance(a, ast.Name) for l, a in zip(lits, it.args)):
+            n = min(len(l) for l in known)
+            rows = []
+            for i in range(n):
+                rows.append(ast.Tuple(elts=[l[i] if l is not None else ast.Subscript(value=clone(a), slice=ast.Constant(value=i), ctx=ast.Load())
+                                            for l, a in zip(lits, it.args)], ctx=ast.Load()))
+            return rows
     return None
 
 
@@ -295,8 +313,19 @@ def _unroll_for(s, fnode=None):
     elems = _literal_iteration(s.iter, fnode)
     if elems is None:
         return None
+    # a lambda handed straight to a plain function call (for_each_in(lambda x: conv(x, kind), xs)) is consumed within the
+    # iteration: substituting the loop variable into it is what the iteration computes.  Any other lambda / def may outlive
+    # the iteration and see a later value of the loop variable (late binding): no unrolling then.
+    consumed = set()
     for x in ast.walk(ast.Module(body=s.body, type_ignores=[])):
-        if isinstance(x, (ast.Break, ast.Continue, ast.Return, ast.Yield, ast.YieldFrom, ast.FunctionDef, ast.Lambda, ast.Global, ast.Nonlocal)):
+        if isinstance(x, ast.Call) and isinstance(x.func, ast.Name):
+            for a_ in x.args:
+                if isinstance(a_, ast.Lambda):
+                    consumed.add(id(a_))
+    for x in ast.walk(ast.Module(body=s.body, type_ignores=[])):
+        if isinstance(x, (ast.Break, ast.Continue, ast.Return, ast.Yield, ast.YieldFrom, ast.FunctionDef, ast.Global, ast.Nonlocal)):
+            return None
+        if isinstance(x, ast.Lambda) and id(x) not in consumed:
             return None
     tnames = [s.target] if isinstance(s.target, ast.Name) else (list(s.target.elts) if isinstance(s.target, (ast.Tuple, ast.List)) else None)
     if tnames is None or not all(isinstance(t, ast.Name) for t in tnames):
@@ -340,6 +369,73 @@ def _unroll_for(s, fnode=None):
                 b2 = _Rename(ren).visit(b2)
             ast.fix_missing_locations(b2)
             out.append(b2)
+    return out
+
+
+def _schedule_segments(e, fnode, depth=0):
+    """[(constant node, count node)] when `e` is a concatenation of  [K] * N  segments (a piecewise-constant schedule)"""
+    if depth > 3:
+        return None
+    if isinstance(e, ast.Name) and fnode is not None:
+        defs = [n for n in ast.walk(fnode) if isinstance(n, ast.Name) and n.id == e.id and not isinstance(n.ctx, ast.Load)]
+        if len(defs) == 1 and isinstance(getattr(defs[0], "_sched_parent", None), ast.Assign):
+            return _schedule_segments(defs[0]._sched_parent.value, fnode, depth + 1)
+        return None
+    if isinstance(e, ast.BinOp) and isinstance(e.op, ast.Add):
+        a, b = _schedule_segments(e.left, fnode, depth), _schedule_segments(e.right, fnode, depth)
+        return a + b if a is not None and b is not None else None
+    if isinstance(e, ast.BinOp) and isinstance(e.op, ast.Mult):
+        for lst, k in ((e.left, e.right), (e.right, e.left)):
+            if isinstance(lst, ast.List) and len(lst.elts) == 1 and isinstance(lst.elts[0], ast.Constant):
+                return [(lst.elts[0], k)]
+    return None
+
+
+def _split_schedule_loop(s, fnode):
+    """for (f, c) in zip(SCHED, XS): BODY   with SCHED = [K1]*N1 + [K2]*N2 + ...   ->   one loop per segment:
+         for r1 in range(N1): BODY[f:=K1, c:=XS[r1]]
+         for r2 in range(N2): BODY[f:=K2, c:=XS[N1 + r2]]  ...
+    (and the one-sequence form `for f in SCHED`).  The flag is a constant inside each loop, so its tests fold away."""
+    if not isinstance(s, ast.For) or s.orelse:
+        return None
+    for n in ast.walk(fnode):
+        if isinstance(n, ast.Assign) and len(n.targets) == 1 and isinstance(n.targets[0], ast.Name):
+            n.targets[0]._sched_parent = n
+    it = s.iter
+    if isinstance(it, ast.Call) and isinstance(it.func, ast.Name) and it.func.id == "zip" and len(it.args) == 2 and not it.keywords \
+            and isinstance(s.target, (ast.Tuple, ast.List)) and len(s.target.elts) == 2 and all(isinstance(t, ast.Name) for t in s.target.elts):
+        for pos in (0, 1):
+            segs = _schedule_segments(it.args[pos], fnode)
+            if segs is not None and len(segs) >= 2 and _simple(it.args[1 - pos]):
+                flag, other, xs = s.target.elts[pos].id, s.target.elts[1 - pos].id, it.args[1 - pos]
+                break
+        else:
+            return None
+    elif isinstance(s.target, ast.Name):
+        segs = _schedule_segments(it, fnode)
+        if segs is None or len(segs) < 2:
+            return None
+        flag, other, xs = s.target.id, None, None
+    else:
+        return None
+    assigned = _assigned_names(ast.Module(body=s.body, type_ignores=[]))
+    if flag in assigned or (other and other in assigned):
+        return None
+    if any(isinstance(x, (ast.Break, ast.Continue, ast.Return, ast.Yield, ast.YieldFrom)) for b in s.body for x in ast.walk(b)):
+        return None
+    out = []
+    offset = None
+    for k, (const, cnt) in enumerate(segs):
+        r = "_seg%d_%d" % (getattr(s, "lineno", 0), k + 1)
+        mapping = {flag: const}
+        if other:
+            idx = ast.Name(id=r, ctx=ast.Load()) if offset is None else ast.BinOp(left=clone(offset), op=ast.Add(), right=ast.Name(id=r, ctx=ast.Load()))
+            mapping[other] = ast.Subscript(value=clone(xs), slice=idx, ctx=ast.Load())
+        body = _fold_const_ifs([_FoldConstIfExp().visit(_Subst(mapping).visit(clone(b))) for b in s.body])
+        lp = ast.For(target=ast.Name(id=r, ctx=ast.Store()), iter=ast.Call(func=ast.Name(id="range", ctx=ast.Load()), args=[clone(cnt)], keywords=[]),
+                     body=body or [ast.Pass()], orelse=[])
+        out.append(ast.fix_missing_locations(ast.copy_location(lp, s)))
+        offset = clone(cnt) if offset is None else ast.BinOp(left=offset, op=ast.Add(), right=clone(cnt))
     return out
 
 
@@ -457,6 +553,198 @@ def _propagate_copies(stmts):
     return changed
 
 
+class _FoldConstIfExp(ast.NodeTransformer):
+    def visit_IfExp(self, n):
+        self.generic_visit(n)
+        t, neg = n.test, False
+        while isinstance(t, ast.UnaryOp) and isinstance(t.op, ast.Not):
+            t, neg = t.operand, not neg
+        if isinstance(t, ast.Constant) and isinstance(t.value, (bool, int, type(None))):
+            return n.body if bool(t.value) != neg else n.orelse
+        return n
+
+
+def _thread_flags(fnode):
+    """A decision recorded in a Boolean local and tested right after is the decision itself:
+
+        if A: f = True                      if A: X
+        elif B: f = False           ->      elif B: Y
+        else: raise E                       else: raise E
+        ...; if f: X  else: Y
+
+    Every leaf arm of the first statement either leaves the function or ends by assigning a Boolean constant to `f`; `f`
+    is assigned nowhere else and read only in the statements that follow in the same block (at most MAXTAIL of them).
+    The tail is copied into each arm with the constant in place of `f`, and constant tests are folded."""
+    MAXTAIL = 8
+    stores, loads = {}, {}
+    for n in ast.walk(fnode):
+        if isinstance(n, ast.Name):
+            d = loads if isinstance(n.ctx, ast.Load) else stores
+            d.setdefault(n.id, []).append(n)
+
+    def leaves(ifs):
+        """[(statement list, flag assign or None)] for every leaf arm of an if/elif chain; None if an arm has neither form"""
+        out = []
+        for arm in (ifs.body, ifs.orelse):
+            if not arm:
+                return None         # falls through without deciding
+            last = arm[-1]
+            if len(arm) == 1 and isinstance(last, ast.If):
+                sub = leaves(last)
+                if sub is None:
+                    return None
+                out += sub
+            elif isinstance(last, (ast.Raise, ast.Return)):
+                out.append((arm, None))
+            elif isinstance(last, ast.Assign) and len(last.targets) == 1 and isinstance(last.targets[0], ast.Name) \
+                    and isinstance(last.value, ast.Constant) and isinstance(last.value.value, bool):
+                out.append((arm, last))
+            else:
+                return None
+        return out
+    changed = False
+    for holder in ast.walk(fnode):
+        for fld in ("body", "orelse", "finalbody"):
+            stmts = getattr(holder, fld, None)
+            if not (isinstance(stmts, list) and stmts and isinstance(stmts[0], ast.stmt)) or isinstance(holder, (ast.ClassDef,)):
+                continue
+            if isinstance(holder, (ast.For, ast.While)):
+                continue        # a tail inside a loop body is followed by the next iteration: leave loops alone
+            for i, s in enumerate(stmts):
+                if not isinstance(s, ast.If) or i + 1 >= len(stmts):
+                    continue
+                lv = leaves(s)
+                if not lv:
+                    continue
+                flags = {a.targets[0].id for _arm, a in lv if a is not None}
+                if len(flags) != 1:
+                    continue
+                f = flags.pop()
+                assigns = [a for _arm, a in lv if a is not None]
+                if len(assigns) < 2 or len(stores.get(f, [])) != len(assigns):
+                    continue
+                tail = stmts[i + 1:]
+                if len(tail) > MAXTAIL or len(lv) > 4:
+                    continue
+                tail_loads = [n for t in tail for n in ast.walk(t) if isinstance(n, ast.Name) and n.id == f and isinstance(n.ctx, ast.Load)]
+                if not tail_loads or len(tail_loads) != len(loads.get(f, [])):
+                    continue        # read elsewhere as well (or not at all): not a pure decision variable
+                if any(isinstance(n, (ast.FunctionDef, ast.Lambda, ast.For, ast.While, ast.Try, ast.With)) for t in tail for n in ast.walk(t)):
+                    continue
+                k = 0
+                for arm, a in lv:
+                    if a is None:
+                        continue
+                    arm.pop()
+                    copy_ = [_FoldConstIfExp().visit(_Subst({f: ast.Constant(value=a.value.value)}).visit(clone(t))) for t in tail]
+                    if k:
+                        for t in copy_:
+                            for n in ast.walk(t):
+                                if hasattr(n, "col_offset"):
+                                    n.col_offset += 1000 * k
+                    k += 1
+                    folded = _fold_const_ifs(copy_)
+                    for j_, t_ in enumerate(folded):
+                        if _terminates([t_]):
+                            folded = folded[:j_ + 1]       # what follows an unconditional exit is dead
+                            break
+                    arm.extend(folded)
+                    for t in arm:
+                        ast.fix_missing_locations(t)
+                del stmts[i + 1:]
+                return True       # tables are stale: one rewrite per call
+    return changed
+
+
+def _inline_name_copies(fnode):
+    """t = y  (two plain names, each bound exactly once in the function, t read exactly once): the read of t is a read of y"""
+    loads, stores = {}, {}
+    for n in ast.walk(fnode):
+        if isinstance(n, ast.Name):
+            d = loads if isinstance(n.ctx, ast.Load) else stores
+            d.setdefault(n.id, []).append(n)
+        elif isinstance(n, ast.arg):
+            stores.setdefault(n.arg, []).append(n)
+    for n in ast.walk(fnode):
+        if isinstance(n, (ast.Global, ast.Nonlocal)):
+            for g in n.names:
+                stores.setdefault(g, []).extend([n, n])
+    changed = False
+    for holder in ast.walk(fnode):
+        for fld in ("body", "orelse", "finalbody"):
+            stmts = getattr(holder, fld, None)
+            if not (isinstance(stmts, list) and stmts and isinstance(stmts[0], ast.stmt)):
+                continue
+            for s in list(stmts):
+                if isinstance(s, ast.Assign) and len(s.targets) == 1 and isinstance(s.targets[0], ast.Name) and isinstance(s.value, ast.Name):
+                    t, y = s.targets[0].id, s.value.id
+                    if t != y and len(stores.get(t, [])) == 1 and len(loads.get(t, [])) == 1 and len(stores.get(y, [])) == 1 \
+                            and isinstance(stores[y][0], ast.Name):
+                        use = loads[t][0]
+                        if any(isinstance(p, (ast.FunctionDef, ast.Lambda)) and p is not fnode for p in _parents_of(use, fnode)):
+                            continue
+                        use.id = y
+                        stmts.remove(s)
+                        loads.setdefault(y, []).append(use)
+                        loads[t] = []
+                        changed = True
+            if not stmts:
+                stmts.append(ast.Pass())
+    return changed
+
+
+def _parents_of(node, root):
+    """ancestors of `node` below `root` (no reliance on _parent links, which are stale while flattening)"""
+    path = []
+
+    def go(n, trail):
+        if n is node:
+            path.extend(trail)
+            return True
+        for c in ast.iter_child_nodes(n):
+            if go(c, trail + [n]):
+                return True
+        return False
+    go(root, [])
+    return path
+
+
+def _fuse_test_temps(fnode):
+    """t = TEST ; if t: / if not t:   with t read nowhere else   ->   if TEST: / if not (TEST):
+    (the named intermediate of a predicate helper, or the temporary this pass itself introduced for `if helper(..):`)"""
+    loads, stores = {}, {}
+    for n in ast.walk(fnode):
+        if isinstance(n, ast.Name):
+            d = loads if isinstance(n.ctx, ast.Load) else stores
+            d[n.id] = d.get(n.id, 0) + 1
+    changed = False
+    for holder in ast.walk(fnode):
+        for fld in ("body", "orelse", "finalbody"):
+            stmts = getattr(holder, fld, None)
+            if not (isinstance(stmts, list) and stmts and isinstance(stmts[0], ast.stmt)):
+                continue
+            i = 0
+            while i + 1 < len(stmts):
+                a, b = stmts[i], stmts[i + 1]
+                if isinstance(a, ast.Assign) and len(a.targets) == 1 and isinstance(a.targets[0], ast.Name) and isinstance(b, ast.If):
+                    t = a.targets[0].id
+                    tst = b.test
+                    neg = isinstance(tst, ast.UnaryOp) and isinstance(tst.op, ast.Not)
+                    core = tst.operand if neg else tst
+                    if isinstance(core, ast.Name) and core.id == t and loads.get(t, 0) == 1 and stores.get(t, 0) == 1 \
+                            and isinstance(a.value, (ast.BoolOp, ast.Compare, ast.UnaryOp, ast.Call)):
+                        nt = a.value
+                        if neg:
+                            nt = ast.UnaryOp(op=ast.Not(), operand=nt)
+                        b.test = ast.copy_location(nt, tst)
+                        ast.fix_missing_locations(b)
+                        del stmts[i]
+                        changed = True
+                        continue
+                i += 1
+    return changed
+
+
 def arm_stmts(fnode, test_text):
     """Statements executed when `test_text` holds, whichever way the dispatch is written:
          if <test>: BODY                      -> BODY
@@ -509,6 +797,23 @@ class _ExprInline(ast.NodeTransformer):
         body = list(fn.body)
         if body and isinstance(body[0], ast.Expr) and isinstance(body[0].value, ast.Constant) and isinstance(body[0].value.value, str):
             body = body[1:]
+        # guard clauses that only return:  if T: return A ; return B   ->   return A if T else B
+        def as_expr(stmts):
+            if len(stmts) == 1 and isinstance(stmts[0], ast.Return) and stmts[0].value is not None:
+                return stmts[0].value
+            if stmts and isinstance(stmts[0], ast.If) and not any(isinstance(x, ast.Call) and not (
+                    isinstance(x.func, ast.Name) and x.func.id in ("isinstance", "len")) for x in ast.walk(stmts[0].test)):
+                a = as_expr(stmts[0].body)
+                b = as_expr(stmts[0].orelse) if stmts[0].orelse and len(stmts) == 1 else (as_expr(stmts[1:]) if not stmts[0].orelse else None)
+                if a is not None and b is not None:
+                    return ast.copy_location(ast.IfExp(test=stmts[0].test, body=a, orelse=b), stmts[0])
+            return None
+        if len(body) > 1 or (body and isinstance(body[0], ast.If)):
+            e = as_expr(body)
+            if e is not None:
+                r = ast.copy_location(ast.Return(value=e), body[0])
+                ast.fix_missing_locations(r)
+                return [r]
         return body
 
     def visit_Call(self, n):
@@ -545,6 +850,12 @@ class _ExprInline(ast.NodeTransformer):
             return n
         body = self._body(fn)
         mapping = dict(zip(params, args))
+        # an argument that is evaluated (a subscript: obj[i] may run code, e.g. a secret-index read) must not be duplicated
+        for p_, a_ in mapping.items():
+            if any(isinstance(x, ast.Subscript) for x in ast.walk(a_)):
+                uses_ = sum(1 for s_ in body for x in ast.walk(s_) if isinstance(x, ast.Name) and x.id == p_ and isinstance(x.ctx, ast.Load))
+                if uses_ > 1:
+                    return n
         if len(body) == 1 and isinstance(body[0], ast.Return) and body[0].value is not None \
                 and not any(isinstance(x, (ast.Yield, ast.YieldFrom, ast.Await, ast.NamedExpr)) for x in ast.walk(body[0].value)):
             # parameters used more than once are fine: the arguments are simple
@@ -674,7 +985,8 @@ class Flattener:
                 a = defaults[i - off]
             else:
                 return None
-            if _simple(a) and p not in assigned:
+            nuse = sum(1 for x in ast.walk(fn) if isinstance(x, ast.Name) and x.id == p and isinstance(x.ctx, ast.Load))
+            if _simple(a) and p not in assigned and not (nuse > 1 and any(isinstance(x, ast.Subscript) for x in ast.walk(a))):
                 mapping[p] = a
             else:
                 asg = ast.Assign(targets=[ast.Name(id=p, ctx=ast.Store())], value=clone(a))
@@ -930,6 +1242,204 @@ class Flattener:
         self.log.append("%s: desugared `with %s(...)` at line %s" % (fi.fq, ci.name, getattr(w, "lineno", "?")))
         return out
 
+    def scalarize_objects(self, fi):
+        """x = C(args) ... x.m(a) ... x.f   for an unknown, base-less repo class C whose instance never leaves the function
+        (x occurs only as `x.<attr>`): the fields become locals `x__f`, __init__ and the methods are inlined at their calls
+        (scalar replacement of a non-escaping helper object, e.g. a small state holder introduced by a refactoring)."""
+        fnode = fi.node
+        changed = False
+        cands = []
+        for n in ast.walk(fnode):
+            if isinstance(n, ast.Assign) and len(n.targets) == 1 and isinstance(n.targets[0], ast.Name) and isinstance(n.value, ast.Call) \
+                    and isinstance(n.value.func, ast.Name) and n.value.func.id not in KNOWN and not n.value.keywords \
+                    and not any(isinstance(a, ast.Starred) for a in n.value.args):
+                b = fi.module.bindings.get(n.value.func.id)
+                if b and b[0] == "class" and not (b[1].base_names and b[1].base_names != ["object"]):
+                    cands.append((n, b[1]))
+        for asg0, ci in cands:
+            # work on a copy of the function; it replaces the body only when the whole rewrite succeeds
+            order0 = list(ast.walk(fnode))
+            if not any(n is asg0 for n in order0):
+                continue
+            real_fnode = fnode
+            work = clone(fnode)
+            asg = list(ast.walk(work))[[i for i, n in enumerate(order0) if n is asg0][0]]
+            fnode = work
+            try:
+                if self._scalarize_one(fi, fnode, asg, ci):
+                    real_fnode.body = work.body
+                    changed = True
+            finally:
+                fnode = real_fnode
+        return changed
+
+    def _scalarize_one(self, fi, fnode, asg, ci):
+        changed = False
+        if True:
+            x = asg.targets[0].id
+            occ = [n for n in ast.walk(fnode) if isinstance(n, ast.Name) and n.id == x]
+            stores = [n for n in occ if not isinstance(n.ctx, ast.Load)]
+            if len(stores) != 1 or x in {a.arg for a in fnode.args.args}:
+                return False
+            for n in ast.walk(fnode):
+                if isinstance(n, ast.Call):
+                    n.func._sc_parent = n
+            attr_parents = {id(n.value): n for n in ast.walk(fnode) if isinstance(n, ast.Attribute) and isinstance(n.value, ast.Name) and n.value.id == x}
+            if any(id(n) not in attr_parents for n in occ if n is not stores[0]):
+                return False        # the object itself is used (passed on, returned, compared): it escapes
+            if any(isinstance(n, (ast.FunctionDef, ast.Lambda)) and any(isinstance(y, ast.Name) and y.id == x for y in ast.walk(n))
+                   for n in ast.walk(fnode) if n is not fnode):
+                return False
+            methods = ci.methods
+            if any(m_.startswith("__") and m_ != "__init__" for m_ in methods):
+                return False        # operators / protocols: not a plain record with helpers
+            prefix = "%s__" % x
+            ok = True
+            # every field is the instance's own: bound by a top-level statement of __init__ (a field that only exists as a
+            # class attribute is shared between instances - that is state, not a local)
+            init_ = methods.get("__init__")
+            own = set()
+            if init_ is not None and init_.params:
+                for s_ in init_.node.body:
+                    if isinstance(s_, ast.Assign):
+                        for t_ in s_.targets:
+                            if isinstance(t_, ast.Attribute) and isinstance(t_.value, ast.Name) and t_.value.id == init_.params[0]:
+                                own.add(t_.attr)
+            used_fields = {a_.attr for mi_ in methods.values() for a_ in ast.walk(mi_.node)
+                           if isinstance(a_, ast.Attribute) and isinstance(a_.value, ast.Name) and mi_.params and a_.value.id == mi_.params[0]}
+            used_fields |= {n.attr for n in attr_parents.values() if n.attr not in methods}
+            if not used_fields <= own:
+                return False
+            if any(n.attr in methods and not (isinstance(getattr(n, "_sc_parent", None), ast.Call) and n._sc_parent.func is n)
+                   for n in attr_parents.values()):
+                return False        # a bound method is handed on (obj.meth as a callback): the object escapes
+            field_names = [ast.Name(id=prefix + a_.attr, ctx=ast.Store()) for mi_ in methods.values() for a_ in ast.walk(mi_.node)
+                           if isinstance(a_, ast.Attribute) and isinstance(a_.value, ast.Name) and mi_.params and a_.value.id == mi_.params[0]]
+
+            class _Self(ast.NodeTransformer):
+                def __init__(self_, selfname):
+                    self_.selfname = selfname
+                    self_.bad = False
+
+                def visit_Attribute(self_, n):
+                    if isinstance(n.value, ast.Name) and n.value.id == self_.selfname:
+                        if n.attr in methods:
+                            self_.bad = True
+                        return ast.copy_location(ast.Name(id=prefix + n.attr, ctx=n.ctx), n)
+                    self_.generic_visit(n)
+                    return n
+
+                def visit_Name(self_, n):
+                    if n.id == self_.selfname:
+                        self_.bad = True
+                    return n
+
+            def method_body(mi, args, at):
+                fn = mi.node
+                if fn.args.vararg or fn.args.kwarg or fn.args.kwonlyargs or fn.args.defaults or fn.decorator_list \
+                        or not _single_exit(fn) or _count(fn) > MAX_STMTS:
+                    return None
+                params = [a.arg for a in fn.args.args]
+                if not params or len(params) - 1 != len(args):
+                    return None
+                mapping, pre = {}, []
+                assigned = _assigned_names(fn)
+                for p_, a in zip(params[1:], args):
+                    nuse = sum(1 for y in ast.walk(fn) if isinstance(y, ast.Name) and y.id == p_ and isinstance(y.ctx, ast.Load))
+                    if _simple(a) and p_ not in assigned and not (nuse > 1 and any(isinstance(y, ast.Subscript) for y in ast.walk(a))):
+                        mapping[p_] = a
+                    else:
+                        pre.append(ast.copy_location(ast.Assign(targets=[ast.Name(id=p_, ctx=ast.Store())], value=clone(a)), at))
+                body = [clone(s) for s in fn.body]
+                if body and isinstance(body[0], ast.Expr) and isinstance(body[0].value, ast.Constant) and isinstance(body[0].value.value, str):
+                    body = body[1:]
+                ret = None
+                if body and isinstance(body[-1], ast.Return):
+                    ret = body[-1].value
+                    body = body[:-1]
+                tr = _Self(params[0])
+                body = [tr.visit(_Subst(mapping).visit(s)) for s in body]
+                if ret is not None:
+                    ret = tr.visit(_Subst(mapping).visit(clone(ret)))
+                if tr.bad:
+                    return None
+                return pre, body, ret, fn
+
+            def rewrite(stmts):
+                nonlocal ok
+                out = []
+                for s in stmts:
+                    if s is asg:
+                        init = methods.get("__init__")
+                        if init is None:
+                            if asg.value.args:
+                                ok = False
+                            continue
+                        r = method_body(init, list(asg.value.args), s)
+                        if r is None or r[2] is not None:
+                            ok = False
+                            return stmts
+                        out += self._finish(fi, r[3], r[0] + r[1], field_names, npre=len(r[0]))
+                        continue
+                    call = None
+                    if isinstance(s, (ast.Expr, ast.Assign, ast.Return)) and isinstance(s.value, ast.Call) and isinstance(s.value.func, ast.Attribute) \
+                            and isinstance(s.value.func.value, ast.Name) and s.value.func.value.id == x:
+                        call = s.value
+                    if call is not None:
+                        mi = methods.get(call.func.attr)
+                        if mi is None or call.keywords or any(isinstance(a, ast.Starred) for a in call.args) or any(
+                                isinstance(y, ast.Name) and y.id == x for a in call.args for y in ast.walk(a)):
+                            ok = False
+                            return stmts
+                        r = method_body(mi, list(call.args), s)
+                        if r is None:
+                            ok = False
+                            return stmts
+                        pre, body, ret, fn_ = r
+                        tail = []
+                        if isinstance(s, ast.Assign):
+                            tail = [ast.copy_location(ast.Assign(targets=[clone(t) for t in s.targets],
+                                                                 value=ret if ret is not None else ast.Constant(value=None)), s)]
+                        elif isinstance(s, ast.Return):
+                            tail = [ast.copy_location(ast.Return(value=ret if ret is not None else ast.Constant(value=None)), s)]
+                        elif ret is not None and any(isinstance(y, ast.Call) for y in ast.walk(ret)):
+                            tail = [ast.copy_location(ast.Expr(value=ret), s)]
+                        fin = self._finish(fi, fn_, pre + body + tail, field_names + (list(s.targets) if isinstance(s, ast.Assign) else []), npre=len(pre))
+                        out += fin
+                        continue
+                    for fld in ("body", "orelse", "finalbody"):
+                        sub = getattr(s, fld, None)
+                        if isinstance(sub, list) and sub and isinstance(sub[0], ast.stmt) and not isinstance(s, (ast.FunctionDef, ast.ClassDef)):
+                            setattr(s, fld, rewrite(sub))
+                    for h in getattr(s, "handlers", []) or []:
+                        h.body = rewrite(h.body)
+                    out.append(s)
+                return out
+            new_body = rewrite(fnode.body)
+            # whatever is left of x must be plain field access
+            left = [n for s in new_body for n in ast.walk(s) if isinstance(n, ast.Name) and n.id == x]
+            if ok:
+                class _Fields(ast.NodeTransformer):
+                    def visit_Attribute(self_, n):
+                        if isinstance(n.value, ast.Name) and n.value.id == x:
+                            if n.attr in methods:
+                                nonlocal_bad.append(n)
+                            return ast.copy_location(ast.Name(id=prefix + n.attr, ctx=n.ctx), n)
+                        self_.generic_visit(n)
+                        return n
+                nonlocal_bad = []
+                new_body = [_Fields().visit(s) for s in new_body]
+                if nonlocal_bad or any(isinstance(n, ast.Name) and n.id == x for s in new_body for n in ast.walk(s)):
+                    ok = False
+            if not ok:
+                return False
+            for s in new_body:
+                ast.fix_missing_locations(s)
+            fnode.body = new_body
+            self.inlined_classes.add(ci.name)
+            self.log.append("%s: scalarised local object `%s` of class %s" % (fi.fq, x, ci.name))
+            return True
+
     def _finish(self, fi, fn, out, target, npre=0):
         """beta/operator reduction, constant getattr/setattr canonicalisation, and renaming of helper locals that collide
         with names already used in the caller (a helper inlined twice must not share its locals)."""
@@ -974,6 +1484,8 @@ class Flattener:
             root = s.value
         elif isinstance(s, ast.If):
             root = s.test
+        elif isinstance(s, ast.For):
+            root = s.iter          # evaluated once, before the first iteration
         else:
             return None
 
@@ -1046,6 +1558,8 @@ class Flattener:
                 return n
         if isinstance(s, ast.If):
             s.test = _Repl().visit(s.test)
+        elif isinstance(s, ast.For):
+            s.iter = _Repl().visit(s.iter)
         else:
             s.value = _Repl().visit(s.value)
         ast.fix_missing_locations(s)
@@ -1108,14 +1622,42 @@ class Flattener:
             if pre is not None:
                 out.extend(pre)
                 changed = True
-            if isinstance(s, ast.Expr) and isinstance(s.value, ast.Call):
+            if isinstance(s, ast.Assign) and isinstance(s.value, (ast.Tuple, ast.List)):
+                sp_ = _split_tuple_assign(s)
+                if len(sp_) > 1:
+                    rep = sp_       # head, rest = item[0], item[1:]  ->  two assignments
+            if rep is not None:
+                pass
+            elif isinstance(s, ast.Expr) and isinstance(s.value, ast.Call):
                 rep = self.expand_call(fi, s.value, "expr")
             elif isinstance(s, ast.Assign) and isinstance(s.value, ast.Call):
                 rep = self.expand_call(fi, s.value, "assign", s.targets)
             elif isinstance(s, ast.Return) and isinstance(s.value, ast.Call):
                 rep = self.expand_call(fi, s.value, "return")
             elif isinstance(s, ast.With):
+                # `cm = CM(args)` directly followed by `with cm:` (cm used nowhere else) is `with CM(args):`
+                if len(s.items) == 1 and isinstance(s.items[0].context_expr, ast.Name) and out and isinstance(out[-1], ast.Assign) \
+                        and len(out[-1].targets) == 1 and isinstance(out[-1].targets[0], ast.Name) \
+                        and out[-1].targets[0].id == s.items[0].context_expr.id and isinstance(out[-1].value, ast.Call):
+                    nm_ = s.items[0].context_expr.id
+                    uses_ = [x for x in ast.walk(fi.node) if isinstance(x, ast.Name) and x.id == nm_]
+                    if len([x for x in uses_ if isinstance(x.ctx, ast.Load)]) == 1 and len([x for x in uses_ if not isinstance(x.ctx, ast.Load)]) == 1:
+                        s.items[0].context_expr = out.pop().value
+                        if s.items[0].optional_vars is None:
+                            pass
+                        changed = True
                 rep = self.expand_with(fi, s)
+            elif isinstance(s, (ast.Assign, ast.Return)) and isinstance(s.value, ast.IfExp) and any(
+                    isinstance(c, ast.Call) and self.helper_of(fi, c) is not None
+                    for arm in (s.value.body, s.value.orelse) for c in ast.walk(arm)) and (
+                    isinstance(s, ast.Return) or (len(s.targets) == 1 and isinstance(s.targets[0], ast.Name))):
+                # `x = helper(a) if T else B`  ->  `if T: x = helper(a)  else: x = B`   (the helper is inlined next round)
+                def _arm(v):
+                    if isinstance(s, ast.Return):
+                        return ast.copy_location(ast.Return(value=v), s)
+                    return ast.copy_location(ast.Assign(targets=[clone(s.targets[0])], value=v), s)
+                rep = [ast.copy_location(ast.If(test=s.value.test, body=[_arm(s.value.body)], orelse=[_arm(s.value.orelse)]), s)]
+                ast.fix_missing_locations(rep[0])
             elif isinstance(s, ast.If):
                 # `if helper(args):` / `if not helper(args):`  ->  t = helper(args) [inlined]; if t:
                 tcall = s.test.operand if (isinstance(s.test, ast.UnaryOp) and isinstance(s.test.op, ast.Not)) else s.test
@@ -1132,6 +1674,10 @@ class Flattener:
                         changed = True
             if rep is None and isinstance(s, ast.For):
                 rep = self.expand_generator_loop(fi, s)
+            if rep is None and isinstance(s, ast.For):
+                rep = _split_schedule_loop(s, fi.node)
+                if rep is not None:
+                    self.log.append("%s: loop over a piecewise-constant schedule split at line %s" % (fi.fq, getattr(s, "lineno", "?")))
             if rep is None and isinstance(s, ast.For):
                 rep = _unroll_for(s, fi.node)
                 if rep is not None:
@@ -1164,7 +1710,18 @@ class Flattener:
     def flatten_function(self, fi):
         if not isinstance(fi.node, ast.FunctionDef):
             return False
-        any_change = False
+        chain, p_ = [], fi.parent
+        while p_ is not None:
+            if isinstance(p_.node, ast.FunctionDef):
+                chain.append(p_.node)
+            p_ = p_.parent
+        fi.node._closure_parents = chain
+        try:
+            pre_changed = self.scalarize_objects(fi)
+        except Exception as e:
+            self.log.append("scalarize_objects failed for %s: %r" % (fi.fq, e))
+            pre_changed = False
+        any_change = bool(pre_changed)
         for _ in range(MAX_ROUNDS):
             nb, ch = self.flat_block(fi, fi.node.body)
             ei = _ExprInline(self, fi)
@@ -1177,6 +1734,14 @@ class Flattener:
             if not ch and not ei.changed:
                 break
             fi.node.body = nb
+            any_change = True
+        if _fuse_test_temps(fi.node):
+            any_change = True
+        if _inline_name_copies(fi.node):
+            any_change = True
+        for _ in range(6):
+            if not _thread_flags(fi.node):
+                break
             any_change = True
         if any_change:
             for n in ast.walk(fi.node):
@@ -1246,6 +1811,25 @@ def _drop_dead_helpers(repo, fl):
             elif isinstance(n, ast.Constant) and isinstance(n.value, str) and n.value.isidentifier():
                 refs[n.value] = refs.get(n.value, 0) + 1
     dropped = []
+    # a nested helper is private to its function whatever its name: once no use is left there, it is gone
+    for m in repo.modules.values():
+        for q, fi in list(m.functions.items()):
+            if fi.parent is None or fi.name not in fl.inlined_names or not isinstance(fi.node, ast.FunctionDef) or q not in m.functions:
+                continue
+            pn = fi.parent.node
+            used = any(isinstance(x, ast.Name) and x.id == fi.name and isinstance(x.ctx, ast.Load) for x in ast.walk(pn))
+            if used:
+                continue
+            for holder in ast.walk(pn):
+                for fld in ("body", "orelse", "finalbody"):
+                    lst = getattr(holder, fld, None)
+                    if isinstance(lst, list) and any(s is fi.node for s in lst):
+                        lst[:] = [s for s in lst if s is not fi.node] or [ast.Pass()]
+            del m.functions[q]
+            fi.parent.children.pop(fi.name, None)
+            for q2 in [k for k in m.functions if k.startswith(q + ".")]:
+                del m.functions[q2]
+            dropped.append(fi.fq)
     for m in repo.modules.values():
         for q, fi in list(m.functions.items()):
             nm = fi.name
@@ -1271,7 +1855,7 @@ def _drop_dead_helpers(repo, fl):
         fl.log.append("dropped after inlining: %s" % d)
 
 
-def resolve_locals(fnode, expr, max_depth=4, copies_only=False):
+def resolve_locals(fnode, expr, max_depth=4, copies_only=False, keep=()):
     """Copy of `expr` with single-assignment local names replaced by their defining expressions (def-use
     substitution), so that `t = f(x); g(t)` and `g(f(x))` normalise to the same text."""
     counts = {}
@@ -1300,7 +1884,7 @@ def resolve_locals(fnode, expr, max_depth=4, copies_only=False):
                 for x in ast.walk(t):
                     if isinstance(x, ast.Subscript) and isinstance(x.value, ast.Name):
                         mutated.add(x.value.id)
-    single = {k: v for k, v in single.items() if k not in mutated}
+    single = {k: v for k, v in single.items() if k not in mutated and k not in keep}
     if copies_only:
         # copy propagation only (t = u): always sound for single-assignment locals, whatever state changes in between
         single = {k: v for k, v in single.items() if isinstance(v, ast.Name)}
